@@ -141,21 +141,37 @@ func (e *Encoder) writeList(data interface{}) (int, error) {
 
 	if !ok || _interfaceTypeName == arrayRootElemName(arrayTypeName) {
 		// fixed-length untyped list
-		e.writeBT(_listFixedUntypedTag)
-		e.writeInt(int32(vv.Len()))
+		if _, err := e.writeBT(_listFixedUntypedTag); err != nil {
+			return 0, err
+		}
+		if _, err := e.writeInt(int32(vv.Len())); err != nil {
+			return 0, err
+		}
 	} else if byte(vv.Len()) <= _listFixedTypedLenMax {
 		// fixed-length typed list
-		e.writeBT(_listFixedTypedLenTagMin + byte(vv.Len()))
-		e.writeString(listTypeName)
+		if _, err := e.writeBT(_listFixedTypedLenTagMin + byte(vv.Len())); err != nil {
+			return 0, err
+		}
+		if _, err := e.writeString(listTypeName); err != nil {
+			return 0, err
+		}
 	} else {
 		// fixed-length
-		e.writeBT(_listFixedTypedStartTag)
-		e.writeString(listTypeName)
-		e.writeInt(int32(vv.Len()))
+		if _, err := e.writeBT(_listFixedTypedStartTag); err != nil {
+			return 0, err
+		}
+		if _, err := e.writeString(listTypeName); err != nil {
+			return 0, err
+		}
+		if _, err := e.writeInt(int32(vv.Len())); err != nil {
+			return 0, err
+		}
 	}
 
 	for i := 0; i < vv.Len(); i++ {
-		e.WriteData(vv.Index(i).Interface())
+		if _, err := e.WriteData(vv.Index(i).Interface()); err != nil {
+			return 0, err
+		}
 	}
 	return vv.Len(), nil
 }
